@@ -154,6 +154,8 @@ def check(run):
             srcs.append(genericgen.Gen(rng).program(n_stmts=4, depth=2)[0])
         crng = run.sub_rng("c03-closures")
         srcs += [genprog.closure_program(crng) for _ in range(40 if run.tier == "quick" else 600)]
+        import matrixgen
+        srcs += matrixgen.sources(run, "c03", per_quick=12)
         root, paths = semrun.write_programs("c03", srcs)
         corpus = sorted(glob.glob(os.path.join(vlib.REPO, "crates/compiler/src/tests/pipeline/*/main.gom")))
         paths += corpus
